@@ -152,13 +152,15 @@ def run(eng: Engine, ck: Check):
         ck.ob('R-C02-ESCAPE', opa, x, f'accepted connection: every failure of the first frame {sorted(need)} is handled', covered == need,
               f'not handled: {sorted(need - covered)}', construct='accept handles escape set')
         if t is not None:
+            # the arm that really gets a decode error: the FIRST one, in source order, that catches MessageDeserializationError under the
+            # repository's exception hierarchy (an earlier arm for a base class shadows a later one for the class itself)
+            first_ = next((h for h in t.handlers if cfgm.handler_catches(h, 'exc', 'MessageDeserializationError') == 'must'), None)
+            ck.ob('R-C02-ESCAPE', opa, first_ or t, 'an undecodable first frame closes that connection (and only that one): the except arm that receives '
+                  'MessageDeserializationError disconnects it', first_ is not None and len([y for y in calls_on(first_, 'disconnect') if receiver_str(y) == opa.params[1]]) == 1,
+                  (f'the decode error is caught by `except {", ".join(handler_type_names(first_))}` (line {first_.lineno}), which does not disconnect: the accepted '
+                   'connection stays open and registered, nobody reads it') if first_ is not None else 'no arm catches it', construct='bad first frame closes connection')
             for h in t.handlers:
                 names = handler_type_names(h)
-                if 'MessageDeserializationError' in names or catches_all(h):
-                    d = [y for y in calls_on(h, 'disconnect')]
-                    ok = len(d) == 1 and receiver_str(d[0]) == opa.params[1]
-                    ck.ob('R-C02-ESCAPE', opa, h, 'an undecodable first frame closes that connection (and only that one)', ok,
-                          f'{[unparse(y) for y in d]}', construct='bad first frame closes connection')
                 others = [y for y in calls_in(h) if call_name(y) == 'disconnect' and receiver_str(y) != opa.params[1]]
                 ck.ob('R-C02-ESCAPE', opa, h, 'the handler touches no other connection', not others, f'{[unparse(y) for y in others]}', construct=f'accept except {",".join(names)} local')
 
